@@ -921,6 +921,11 @@ func (g *guardEngine) discharge(s guardSite) string {
 			continue
 		}
 		if f.gtIdx != nil && (f.gtIdx == s.idx || g.same(f.gtIdx, s.idx) || sameModConvert(f.gtIdx, s.idx)) {
+			// an index that a call handed back (a search or a lookup by name) can be negative:
+			// idx < len alone does not make it valid
+			if signUnknownCallResult(s.idx) && !nonNegInt(s.idx, 0, map[ssa.Value]bool{}) && g.intMinFrom(s.idx, s.ins.Block(), -1) < 0 {
+				continue
+			}
 			return "dominating guard idx < len"
 		}
 		if f.geIdx != nil && !s.idxIsBound {
@@ -1979,4 +1984,22 @@ func (g *guardEngine) searchedIs(call *ssa.Call, k int, x ssa.Value) bool {
 		return fa != nil && fa.Field == f && (fa.X == arg || g.same(fa.X, arg))
 	}
 	return arg == x || g.same(arg, x)
+}
+
+// signUnknownCallResult: v is a signed integer result of a (non-builtin) call, possibly one
+// of several results.
+func signUnknownCallResult(v ssa.Value) bool {
+	bt, ok := v.Type().Underlying().(*types.Basic)
+	if !ok || bt.Info()&types.IsInteger == 0 || bt.Info()&types.IsUnsigned != 0 {
+		return false
+	}
+	if ex, ok := v.(*ssa.Extract); ok {
+		v = ex.Tuple
+	}
+	call, ok := v.(*ssa.Call)
+	if !ok {
+		return false
+	}
+	_, isBuiltin := call.Call.Value.(*ssa.Builtin)
+	return !isBuiltin
 }
